@@ -130,6 +130,7 @@ func (in *instance) step(o Op, sets []VarSet, dry *stepStats) (res string, st st
 		if p := recover(); p != nil {
 			switch v := p.(type) {
 			case ScannerFailure:
+				st.fired = "fail_at"
 				res = fmt.Sprintf("scanner-failure@%d", v.Call)
 			case StepBudgetExceeded:
 				res = "step-budget:" + v.Error()
@@ -208,6 +209,9 @@ func (in *instance) step(o Op, sets []VarSet, dry *stepStats) (res string, st st
 					toks = in.tok.TokenizeStream(sc)
 				} else if eofAt >= 0 {
 					toks = in.tok.TokenizeBuffer(string(sc.Content))
+				} else if dry == nil {
+					// fault-free dry run: count the scanner calls the buffer form would make
+					toks = in.tok.TokenizeStream(sc)
 				} else {
 					toks = in.tok.TokenizeBuffer(o.S)
 				}
@@ -568,7 +572,7 @@ func C05Warmup() {
 								}
 								o := Op{Op: mode, S: in, I: h, Set: set}
 								run.ResetOpSteps()
-								res, _ := newInstance(kind, opts).step(o, sets, nil)
+								res, _ := newInstance(kind, opts).step(o, sets, &stepStats{})
 								m[c05PristineKey(kind, opts, o, set)] = res
 							}
 						}
